@@ -342,6 +342,9 @@ def r8_bins_size_strand(ctx):
     ctx.floor("derivations of stranded tables examined", n, 5)
 
 
+from ..through_time import make_rule as _mk_tt
+_through_time = _mk_tt("C10")
+
 RULES = [
     ("C10-R1", r1_lockstep),
     ("C10-R2", r2_global_taint),
@@ -351,4 +354,5 @@ RULES = [
     ("C10-R6", r6_resolve),
     ("C10-R7", r7_label_order),
     ("C10-R8", r8_bins_size_strand),
+    ("C10-T1", _through_time),
 ]
